@@ -67,3 +67,70 @@ Definition nuts_leaf_eval (A : list (list Q)) (e : Q) (x p : list Q) : list Z :=
   let z' := leap1 numQ (prec_grad numQ A) e (x, p) in
   qouts (fst z') ++ qouts (snd z')
   ++ qout (sub numQ (prec_logp numQ A (fst z')) (kinetic numQ (snd z'))).
+
+(* ---- extended values: the log acceptance probability of a step that leaves the support is -inf (or NaN);
+   the comparisons of find_reasonable_epsilon on such values follow IEEE: every comparison with NaN is false,
+   -inf < everything finite < +inf.  (The halving pre-loop `while !all_real(ulogp') && !all_real(grad')` is not
+   part of this model: it runs only when the first leapfrog's gradient is non-finite too.) ---- *)
+Inductive xval (A : Type) : Type := XFin (q : A) | XNegInf | XPosInf | XNaN.
+Arguments XFin {A}. Arguments XNegInf {A}. Arguments XPosInf {A}. Arguments XNaN {A}.
+
+Section FindEpsX.
+  Variable K : Num.
+  Variable lapx : K -> xval K.
+  Variable lnhalf : K.
+  (* lap > ln(1/2) *)
+  Definition upx (l : xval K) : bool :=
+    match l with XFin q => nltb K lnhalf q | XPosInf => true | XNegInf => false | XNaN => false end.
+  (* a * lap > -a * ln 2 *)
+  Definition condx (up : bool) (l : xval K) : bool :=
+    match l with
+    | XFin q => cond K lnhalf up q
+    | XPosInf => up
+    | XNegInf => negb up
+    | XNaN => false
+    end.
+  Fixpoint loop_x (fuel : nat) (up : bool) (eps : K) : option K :=
+    match fuel with
+    | O => None
+    | S f => if condx up (lapx eps) then loop_x f up (scale K up eps) else Some eps
+    end.
+  Definition find_eps_x (fuel : nat) : option K :=
+    let l1 := lapx (one K) in
+    let up := upx l1 in
+    if condx up l1 then loop_x fuel up (scale K up (halfK K)) else Some (halfK K).
+End FindEpsX.
+
+(* the harness's half-line target (c03.rs UserG::HalfLine): log p = -x0 - sum_{i>=1} x_i^2 / 2 for x0 > 0,
+   -inf otherwise; its (autodiff) gradient is (-1, -x_1, ...) inside and the zero vector outside *)
+Section HalfLine.
+  Variable K : Num.
+  Notation "a + b" := (add K a b).
+  Notation "a - b" := (sub K a b).
+  Notation "a * b" := (mul K a b).
+  Notation "a / b" := (div K a b).
+  Definition hl_inside (x : list K) : bool := match x with x0 :: _ => nltb K (zero K) x0 | [] => false end.
+  Definition hl_logp (x : list K) : xval K :=
+    match x with
+    | x0 :: rest => if nltb K (zero K) x0
+                    then XFin (zero K - x0 - vdot K rest rest * (one K / ofZ K 2)) else XNegInf
+    | [] => XNegInf
+    end.
+  Definition hl_grad (x : list K) : list K :=
+    match x with
+    | x0 :: rest => if nltb K (zero K) x0 then (zero K - one K) :: map (fun v => zero K - v) rest
+                    else map (fun _ => zero K) x
+    | [] => []
+    end.
+  Definition lapx_halfline (x p : list K) (e : K) : xval K :=
+    let z' := leap1 K hl_grad e (x, p) in
+    match hl_logp x, hl_logp (fst z') with
+    | XFin l0, XFin l1 => XFin (l1 - l0 - (kinetic K (snd z') - kinetic K p))
+    | XFin _, v => v
+    | _, _ => XNaN
+    end.
+End HalfLine.
+
+Definition find_eps_x_eval (x p : list Q) : list Z :=
+  oq (find_eps_x numQ (lapx_halfline numQ x p) lnhalf_lo 40)
+  ++ oq (find_eps_x numQ (lapx_halfline numQ x p) lnhalf_hi 40).
